@@ -58,6 +58,19 @@ CHECKS['C09'] = dict(
         'no publication is available offline. rho_std = 0.076474 lb/ft^3, constant at 1e-5 relative.',
    ref='3/C09')
 
+CHECKS['C05'] = dict(
+   text='Loop-free symbolic execution of the real create_trajectory_row, spin_drift and calc_stability_coefficient on fully symbolic arguments; every derived column is compared by z3 with the documented formula '
+        'written independently in the harness (transcendentals summarised; same summary on an independently written argument).',
+   note='All values in the stated boxes (look angle in (-1.5,1.5) rad, speed > 0). Energy vs 1/2 m v^2 with g0 = 9.80665/0.3048 at 2e-4 relative (code constant 450400 is 8.1e-5 off). '
+        'That the solver loop passes the row\'s own state into create_trajectory_row is decided in C01/C03, not here. libm accuracy outside.',
+   ref='3/C05')
+CHECKS['C14'] = dict(
+   text='Real DragModelMultiBC / linear_interpolation / BCPoint / make_data_points on symbolic BC points in every relative order (the real sort forks on symbolic keys) and symbolic tables given as dict list or as a donor model\'s data points: '
+        'effective BC at every node vs an independent clamped piecewise-linear oracle, inputs and donor intact (same terms), second build identical, single point = plain model.',
+   note='Bounds: (m BC points, n table nodes) up to (3,2)/(2,3) quick, (4,2)/(3,3)/(2,4) thorough; linear_interpolation alone k <= 4 / 6 points. Distinct BC-point Mach numbers. '
+        'The in-place reordering of the caller\'s bc_points LIST is not treated as altering the data points. Floats as reals (1e-9).',
+   ref='3/C14')
+
 NOT_YET = {}
 
 def main():
